@@ -279,7 +279,7 @@ func TestC08(t *testing.T) {
 		}
 		return rapid.Uint64().Draw(rt, "e")
 	}
-	rapidCheck(t, "ext", tierN(3200, 220000), func(rt *rapid.T) {
+	rapidCheck(t, "ext", tierN(10000, 220000), func(rt *rapid.T) {
 		op := rapid.SampledFrom(ops).Draw(rt, "op")
 		c := c08Case{Op: op, Mode: int(genMode().Draw(rt, "mode"))}
 		ge := func() [2]uint64 {
